@@ -23,7 +23,10 @@ func runC17(c *an.Ctx) {
 	// purity of derivation functions w.r.t. process-wide mutable state
 	var roots []*ssa.Function
 	for _, n := range []string{"core/types.AddressFromPubKey", "core/types.AddressFromMultiPubKeys", "core/types.AddressFromBookkeepers", "common.AddressFromVmCode",
-		"core/program.ProgramFromPubKey", "core/program.ProgramFromMultiPubKey", "core/program.GetProgramInfo"} {
+		"core/program.ProgramFromPubKey", "core/program.ProgramFromMultiPubKey", "core/program.GetProgramInfo",
+		// the two writers of the signer set themselves (seed C17c: a verified-signers cache keyed by the hash of the
+		// unsigned body makes the signer set depend on what this node verified before)
+		"core/validation.checkTransactionSignatures", "core/types.(*Transaction).GetSignatureAddresses"} {
 		if fn := mustFunc(c, n); fn != nil {
 			roots = append(roots, fn)
 		}
@@ -32,6 +35,9 @@ func runC17(c *an.Ctx) {
 	c.Count("functions_analysed", len(fns))
 	bad := 0
 	for _, fn := range fns {
+		if pk := an.FuncPkgPath(fn); pk == an.RepoMod+"/common/log" {
+			continue // logging: its process-wide logger does not feed any result
+		}
 		for _, b := range fn.Blocks {
 			for _, in := range b.Instrs {
 				for _, op := range in.Operands(nil) {
@@ -115,6 +121,50 @@ func signedAddrRule(c *an.Ctx) {
 			}
 			sort.Strings(cs)
 			ctors[name] = cs
+			// every element appended to the stored list is a constructed address on every path: never the zero value
+			// of a variable that one branch forgot to assign (seed C02c: a shadowed `addr` in the multi-signature
+			// branch leaves the outer variable zero, so every multi-signature signer is recorded as ADDRESS_EMPTY)
+			{
+				seen := map[ssa.Value]bool{}
+				var walkList func(v ssa.Value, depth int)
+				zeroAt := ""
+				walkList = func(v ssa.Value, depth int) {
+					if v == nil || seen[v] || depth > 12 {
+						return
+					}
+					seen[v] = true
+					switch x := v.(type) {
+					case *ssa.Phi:
+						for _, e := range x.Edges {
+							walkList(e, depth+1)
+						}
+					case *ssa.Slice:
+						walkList(x.X, depth+1)
+					case *ssa.UnOp:
+						for _, s := range an.AllSources(x) {
+							if s != v {
+								walkList(s, depth+1)
+							}
+						}
+					case *ssa.Call:
+						bi, isB := x.Call.Value.(*ssa.Builtin)
+						if !isB || bi.Name() != "append" || len(x.Call.Args) != 2 {
+							return
+						}
+						walkList(x.Call.Args[0], depth+1)
+						for _, e := range variadicElems(x.Call.Args[1]) {
+							for _, s := range an.AllSources(e) {
+								if k, isK := s.(*ssa.Const); isK && k.Value == nil && addrT != nil && types.Identical(k.Type(), addrT.Type()) {
+									zeroAt = c.P.Rel(x.Pos())
+								}
+							}
+						}
+					}
+				}
+				walkList(w.Val, 0)
+				c.Check(zeroAt == "", "frame|SignedAddr|"+name+"|no-zero-address-appended", "every address appended to the signer list is a constructed address on every path (never the zero value of a variable a branch left unassigned)", c.P.Rel(w.In.Pos()),
+					"the append at "+zeroAt+" can add the zero address: on some path the appended variable is never assigned")
+			}
 			// the stored list: built by append from an empty slice
 			for _, s := range an.AllSources(w.Val) {
 				s = an.Origin(s)
